@@ -2,6 +2,8 @@ package main
 
 import (
 	"fmt"
+	bpmn "github.com/olive-io/bpmn/v2"
+	"github.com/olive-io/bpmn/v2/pkg/tracing"
 	"math/rand"
 	"strings"
 	"sync"
@@ -449,6 +451,54 @@ func runC10(env *Env) {
 			}
 		}
 	}
+	boundaryPromptDelivery(env, rep, "C10-flows", 12)
 	env.WriteCases(rep, "", "Corr.C10corr", "list (nat * nat) * list nat * nat * list nat * nat", items, "c10_mismatches")
 	env.WriteReport(rep)
+}
+
+// boundaryPromptDelivery: a task with three non-interrupting boundary events; the first one's event is delivered the
+// moment that boundary event announces that it listens (while the others are still being armed): it must continue
+// exactly once. Returns the number of rounds in which it did not.
+func boundaryPromptDelivery(env *Env, rep *Report, key string, rounds int) {
+	sh := c10Shape{"three boundary events", false, []bool{false, false, false}, []int{0, 1, 2}, false}
+	xmlText := sh.prog().XML(`<bpmn:signal id="s0" name="s0"/><bpmn:signal id="s1" name="s1"/><bpmn:signal id="s2" name="s2"/>`)
+	for r := 0; r < rounds && !rep.Saturated(); r++ {
+		cs := fmt.Sprintf("task with three boundary events; s0 delivered the moment B0 announces that it listens (round %d)", r)
+		env.Current(cs)
+		defs, err := ParseDefs(xmlText)
+		must(err)
+		trigger := make(chan struct{}, 1)
+		in, err := StartInst(defs, InstOpt{Raw: func(t tracing.ITrace) {
+			if l, ok := t.(bpmn.ActiveListeningTrace); ok && nodeId(l.Node) == "B0" {
+				select {
+				case trigger <- struct{}{}:
+				default:
+				}
+			}
+		}})
+		must(err)
+		delivered := make(chan struct{})
+		go func() {
+			defer close(delivered)
+			select {
+			case <-trigger:
+				in.Signal("s0")
+			case <-time.After(tmoStep):
+			}
+		}()
+		in.Answer("P", tmoStep)
+		select {
+		case <-delivered:
+		case <-time.After(2 * tmoStep):
+		}
+		rep.Evaluations++
+		rep.Nontrivial++
+		rep.Count("prompt_delivery")
+		ok := in.WaitUntil(tmoStep, func(l []Ev) bool { return countEv(l, "task", "X0") >= 1 })
+		time.Sleep(5 * time.Millisecond)
+		if n := countEv(in.Log(), "task", "X0"); !ok || n != 1 {
+			rep.Violate(key, cs, fmt.Sprintf("the exception flow of B0 was requested %d times, expected once; log: %s", n, logString(in.Log())))
+		}
+		in.Close()
+	}
 }
